@@ -5,55 +5,57 @@ import ZvbiModel.Demux.LemmasFrame
 -/
 namespace Zvbi.Demux
 
+variable {cfg : SrcCfg}
+
 /-- payload branch of `pesIter` as a function of the payload bytes -/
-def payloadRes (cb se : Bool) (sk la : Nat) (fs : FS) (data : Bytes) :
+def payloadRes (cb : Bool) (cfg : SrcCfg) (sk la : Nat) (fs : FS) (data : Bytes) :
     (Nat × Nat) × FS × List FrameOut × Option Stop :=
-  match pesPacketFrame 3 cb se { fs with frame := { fs.frame with nDu := 0 } } data with
+  match pesPacketFrame 3 cb cfg.corSkipsEmpty { fs with frame := { fs.frame with nDu := 0 } } data with
   | (fs1, outs, .callback, _) => ((sk, la), fs1, outs, some .callback)
   | (fs1, outs, .fault e, _) => ((sk, la), fs1, outs, some (.fault e))
-  | (fs1, outs, .err, _) => ((la, PES_HEADER_LOOKAHEAD), pesErrFs fs1, outs, none)
+  | (fs1, outs, .err, _) => ((la, PES_HEADER_LOOKAHEAD), pesErrFs cfg fs1, outs, none)
   | (fs1, outs, .done, _) => ((la, PES_HEADER_LOOKAHEAD), fs1, outs, none)
 
-theorem pesIter_payload (cb se : Bool) (sk la : Nat) (fs : FS) (win : Bytes) (h1 : la > 48) (h2 : la ≤ win.length) :
-    pesIter cb se sk la fs win = payloadRes cb se sk la fs (win.take la) := by
+theorem pesIter_payload (cb : Bool) (sk la : Nat) (fs : FS) (win : Bytes) (h1 : la > 48) (h2 : la ≤ win.length) :
+    pesIter cb cfg sk la fs win = payloadRes cb cfg sk la fs (win.take la) := by
   unfold pesIter payloadRes
   simp only []
   rw [if_pos (by simpa [PES_HEADER_LOOKAHEAD] using h1), if_neg (by omega)]
-  generalize pesPacketFrame 3 cb se _ _ = x
+  generalize pesPacketFrame 3 cb _ _ _ = x
   obtain ⟨a, b, r, c⟩ := x
   cases r <;> rfl
 
-theorem payloadRes_ok (se : Bool) (sk la : Nat) (fs : FS) (data : Bytes) (h : 2 ≤ data.length) :
-    ∃ fs1 outs, payloadRes true se sk la fs data = ((la, 48), fs1, outs, none) := by
+theorem payloadRes_ok (cfg : SrcCfg) (sk la : Nat) (fs : FS) (data : Bytes) (h : 2 ≤ data.length) :
+    ∃ fs1 outs, payloadRes true cfg sk la fs data = ((la, 48), fs1, outs, none) := by
   unfold payloadRes
-  have hok := pesPacketFrame_ok se { fs with frame := { fs.frame with nDu := 0 } } data h
-  rcases hp : pesPacketFrame 3 true se { fs with frame := { fs.frame with nDu := 0 } } data with ⟨fs1, outs, r, rest⟩
+  have hok := pesPacketFrame_ok cfg.corSkipsEmpty { fs with frame := { fs.frame with nDu := 0 } } data h
+  rcases hp : pesPacketFrame 3 true cfg.corSkipsEmpty { fs with frame := { fs.frame with nDu := 0 } } data with ⟨fs1, outs, r, rest⟩
   rw [hp] at hok
   simp only at hok
   rcases hok with rfl | rfl
   · exact ⟨fs1, outs, rfl⟩
-  · exact ⟨pesErrFs fs1, outs, rfl⟩
+  · exact ⟨pesErrFs cfg fs1, outs, rfl⟩
 
 /-- **iteration = micro steps**: whatever window (a prefix of the logical stream, at least
 `lookahead` long) `wrap_around` hands out, the loop body never faults, sets a skip of at least one
 byte, and moves the stream machine exactly as its byte-wise definition does -/
 theorem pesIter_arun (L win : Bytes) (fs : FS) (sk la : Nat) (hpre : win <+: L)
     (hla : 48 ≤ la) (hla2 : la ≤ 65495) (hwin : la ≤ win.length) :
-    ∃ sk' la' fs' outs, pesIter true false sk la fs win = ((sk', la'), fs', outs, none)
+    ∃ sk' la' fs' outs, pesIter true cfg sk la fs win = ((sk', la'), fs', outs, none)
       ∧ 1 ≤ sk' ∧ 48 ≤ la' ∧ la' ≤ 65495
-      ∧ arun { skip := 0, lookahead := la, fs := fs } L
-          = (arun { skip := sk', lookahead := la', fs := fs' } L).pre outs := by
+      ∧ arun cfg { skip := 0, lookahead := la, fs := fs } L
+          = (arun cfg { skip := sk', lookahead := la', fs := fs' } L).pre outs := by
   have hLlen : win.length ≤ L.length := hpre.length_le
   by_cases hp : la > 48
   · -- payload
     have htl : (win.take la).length = la := by simp; omega
-    obtain ⟨fs1, outs, hr⟩ := payloadRes_ok false sk la fs (win.take la) (by omega)
+    obtain ⟨fs1, outs, hr⟩ := payloadRes_ok cfg sk la fs (win.take la) (by omega)
     refine ⟨la, 48, fs1, outs, ?_, by omega, by omega, by omega, ?_⟩
-    · rw [pesIter_payload _ _ _ _ _ _ hp hwin, hr]
-    · obtain ⟨fs1', outs', hr'⟩ := payloadRes_ok false 0 la fs (win.take la) (by omega)
+    · rw [pesIter_payload _ _ _ _ _ hp hwin, hr]
+    · obtain ⟨fs1', outs', hr'⟩ := payloadRes_ok cfg 0 la fs (win.take la) (by omega)
       have hsame : fs1' = fs1 ∧ outs' = outs := by
         unfold payloadRes at hr hr'
-        rcases hpp : pesPacketFrame 3 true false { fs with frame := { fs.frame with nDu := 0 } } (win.take la)
+        rcases hpp : pesPacketFrame 3 true cfg.corSkipsEmpty { fs with frame := { fs.frame with nDu := 0 } } (win.take la)
           with ⟨a, b, r, c⟩
         rw [hpp] at hr hr'
         cases r <;> simp_all
@@ -62,15 +64,15 @@ theorem pesIter_arun (L win : Bytes) (fs : FS) (sk la : Nat) (hpre : win <+: L)
         obtain ⟨t, rfl⟩ := hpre
         exact List.take_append_of_le_length hwin
       apply arun_micro _ L la 48 fs1' outs' rfl (by simp; omega) (by omega) _ (by omega)
-      show pesIter true false 0 la fs (L.take la) = _
-      rw [hLt, pesIter_payload _ _ _ _ _ _ hp (by omega), List.take_take, Nat.min_self, hr']
+      show pesIter true cfg 0 la fs (L.take la) = _
+      rw [hLt, pesIter_payload _ _ _ _ _ hp (by omega), List.take_take, Nat.min_self, hr']
   · -- start code scan
     have h48 : la = 48 := by omega
     subst h48
     obtain ⟨sk', la', fs', h1, h2, h3, h4, h5⟩ :=
       scanLoop_arun L win fs sk hpre hwin (win.length + 1) 0 (Nat.zero_le _) (by omega)
     refine ⟨sk', la', fs', [], ?_, by omega, h3, h4, ?_⟩
-    · rw [pesIter_scan _ _ _ _ _ hwin]; exact h1
+    · rw [pesIter_scan _ _ _ _ hwin]; exact h1
     · rw [ARes.pre_nil]; exact h5
 
 end Zvbi.Demux
